@@ -203,15 +203,16 @@ class Hist:
             self.working[k] = v
             self.dirty = True
         for rounds in range(r.randint(1, 3)):
-            if self.hash_ok():
-                self.emit(r.choice(["whash", "whash", "hash", "proof " + enc(self.probe_key())]))
+            op = r.choice(["whash", "whash", "hash", "proof " + enc(self.probe_key())])
+            if self.hash_ok("iv" if op == "whash" else "v1"):
+                self.emit(op)
             ks = sorted(self.working)
             r.shuffle(ks)
             for k in ks[:r.randint(1, max(1, len(ks) // 2))]:
                 self.emit("rm %s" % enc(k))
                 self.curlog.append(("rm", k))
                 del self.working[k]
-            if self.hash_ok() and r.random() < 0.5:
+            if r.random() < 0.5 and self.hash_ok("iv"):
                 self.emit("whash")
         self.read_ops(2)
 
@@ -245,11 +246,19 @@ class Hist:
             self.working[k] = v
             self.dirty = True
 
-    def hash_ok(self):
-        # K5 / K5r: a hash/proof query on the dirty working tree while a non-default initial version is
-        # pending memoises hashes for version 1 (the commit no longer persists them - K5 repaired - but later
-        # read-only queries on that dirty tree still see them, K5r); generation avoids exactly that trigger.
-        return not (self.dirty and self.base == 0 and self.iv_pending not in (None, 1))
+    def hash_ok(self, kind="v1"):
+        # K5 / K5r: before the first commit with a non-default initial version, `ImmutableTree.Hash` and proofs on
+        # the dirty working tree hash the unsaved nodes for version 1 (kind "v1"), `WorkingHash` for the initial
+        # version (kind "iv"); the nodes memoise whichever comes first, so the answers of the other kind depend on
+        # the order (K5r, open). One kind per dirty tree is generated - the commit after it must be canonical
+        # whatever was asked and whatever is written afterwards (K5, repaired).
+        if not (self.base == 0 and self.iv_pending not in (None, 1)) or not self.dirty:
+            return True
+        q = getattr(self, "ivq", None)
+        if q is None or q == kind:
+            self.ivq = kind
+            return True
+        return False
 
     def read_ops(self, n=None):
         r, p = self.r, self.p
@@ -259,7 +268,7 @@ class Hist:
             self.one_read(r.choice(p.reads), "")
         if r.random() < p.p_hash_read:
             op = r.choice(p.hash_reads)
-            if op != "hash" or self.hash_ok():
+            if op == "lhash" or self.hash_ok("iv" if op == "whash" else "v1"):
                 self.emit(op)
         for _ in range(r.randint(*p.meta_per_version)):
             op = r.choice(p.meta_reads)
@@ -494,6 +503,7 @@ class Hist:
 
     def rollback(self):
         self.emit("rollback")
+        self.ivq = None
         self.working = dict(self.versions.get(self.base, {})) if self.base else {}
         self.dirty = False
         self.curlog = []
@@ -720,7 +730,8 @@ class Hist:
                     self.read_ops(2)
                     if r.random() < 0.5:
                         self.emit("lhash")
-                        self.emit("whash")
+                        if self.hash_ok("iv"):
+                            self.emit("whash")
                     self.write_ops()
             self.save()
             self.imm_reads()
